@@ -707,6 +707,33 @@ def run(seed, tier, replay=None):
     elif dists and dists[0][5] == "int:replay":
         first_int = 0
 
+    # ------------------------------------------------------------------ 0. the degenerate normal family far from the origin
+    # a = b (the class is N(a, o^2) exactly, clause "1e-12") at locations that are no dyadic rationals, with noise 1e-12 .. 1e-5 of |a|:
+    # one ulp of the location is then a visible fraction of o.  Query points a + z o (as rounded: the oracle works on the float y).
+    if replay is None:
+        drng = C.rng_for("C06.degenerate-normal", seed)
+        for a0 in (0.1, 0.7, 1234.1, -3.3e5 - 0.3, drng.uniform(1.0, 100.0)):
+            for rel in (1e-12, 1e-9, 10.0 ** drng.uniform(-11.0, -5.0)):
+                o0 = abs(a0) * rel
+                for c0 in (1, 4, 5, 7, 10, drng.randint(1, 10)):
+                    cv0 = drng.random() < 0.5
+                    rep.count("stratum=degenerate_normal_nondyadic_location_small_noise")
+                    try:
+                        d0 = NQ(a0, a0, c0, o0, cv0)
+                        zs0 = (-3.0, -1.0, 0.5, 2.0)
+                        ys0 = [a0 + z * o0 for z in zs0]
+                        with np.errstate(all="ignore"):
+                            ic0, ip0 = np.asarray(d0.cdf(np.array(ys0)), dtype=float), np.asarray(d0.pdf(np.array(ys0)), dtype=float)
+                    except Exception as e:  # noqa: BLE001
+                        rep.violate(what="cdf/pdf raised on a valid input", error=repr(e), input=inp_of(a0, a0, c0, o0, cv0, a0),
+                                    call="NoisyQuadraticDistribution.cdf")
+                        continue
+                    for y0, vc0, vp0 in zip(ys0, ic0, ip0):
+                        rep.case(("degenerate-normal", a0, o0, c0, cv0, y0))
+                        if not conf.cdf(a0, a0, c0, o0, cv0, y0, float(vc0), why="degenerate_normal") \
+                                or not conf.pdf(a0, a0, c0, o0, cv0, y0, float(vp0), why="degenerate_normal"):
+                            break
+
     # ------------------------------------------------------------------ 1. correspondence
     reqs, meta = [], []
     for di, (a, b, c, o, cv, tag, ys) in enumerate(dists):
